@@ -667,7 +667,8 @@ func (e *connectWireError) toConnectError() *connect.Error {
 	}
 	cerr := connect.NewError(code, errors.New(e.Message))
 	for _, detail := range e.Details {
-		detailData, err := base64.RawStdEncoding.DecodeString(detail.Value)
+		// Senders should omit the padding, but receivers must accept both forms.
+		detailData, err := connect.DecodeBinaryHeader(detail.Value)
 		if err != nil {
 			// seems a waste to fail or take other action here...
 			// TODO: maybe we should instead *replace* this detail with a placeholder that
